@@ -30,6 +30,8 @@ def pivot():
     S.append(EnumSpec("OneUnit", [U("Solo")], note="a true single-variant enum"))
     S.append(EnumSpec("Digits", [U("I2c", fields=[Field("u8")]), U("Ipv4addr"), U("V1beta2", fields=[Field("u16"), Field("u8")]), U("Sha256sum"), U("X9"), U("A1B2")],
                       note="numbers followed by a LOWER-case letter inside the identifier (is_i_2c, is_ipv_4addr, is_v_1beta_2, ...)"))
+    S.append(EnumSpec("Big257", [U("V%d" % i, disabled=(i == 100)) for i in range(258)],
+                      note="257 enabled variants (+1 disabled): any 8-bit variant ordinal wraps"))
     S.append(EnumSpec("G", [U("A", fields=[Field("T")]), U("B", fields=[Field("T"), Field("u8")]), U("C"), U("D", fields=[Field("T", name="t")], named=True)],
                       generics=GEN, ty_args="<u16>", subst={"T": "u16"}, note="generic payloads"))
     S.append(EnumSpec("Lt", [U("S", fields=[Field("&'a str")]), U("N", fields=[Field("u8")]), U("U")], generics="<'a>", ty_args="<'static>",
@@ -68,7 +70,7 @@ def program(spec: EnumSpec, pname, tier):
     src = render_enum(spec) + "\n"
     helper = variant_index_fn(spec) + "\n"
     lines = []
-    lines.append("    let k = nd_u8();")
+    lines.append("    let k = %s;" % ("nd_u8()" if nv < 256 else "nd_u16()"))
     lines.append("    vassume((k as usize) < %d);" % nv)
     # payload values: one symbolic value per (variant, field)
     cons = []
@@ -143,7 +145,7 @@ def program(spec: EnumSpec, pname, tier):
         if v.kind == "tuple":
             api.append("    let _ = e.try_as_%s_ref(); let _ = m.try_as_%s_mut(); let _ = e.clone().try_as_%s();" % (sn, sn, sn))
     api.append("}")
-    hs = [Harness(name="h_is_try_as", body=body, unwind=12, kind="symbolic",
+    hs = [Harness(name="h_is_try_as", body=body, unwind=max(12, len(en) + 3), kind="symbolic",
                   desc="for every declared variant with every payload value: exactly one is_*() (none for disabled); try_as_*/_ref/_mut Some iff own variant, fields in order, writes through _mut visible in place",
                   bound={"k": "all %d declared variants" % nv, "payloads": "every value of u8/u16/u32/bool"}, min_covers=ncov, functions=fns)]
     return Program(name=pname, enum_src=src, helper_src=helper, api_src="\n".join(api), harnesses=hs, summary=render_enum(spec), role=spec.role, note=spec.note)
